@@ -28,6 +28,7 @@ EXPLANATION = (
     "the same probit difference times the std of TS resp. TN, and the new object's native probability is the goal. R-C08-8: "
     "cycles/load delegate to basquin_cycles/basquin_load with arguments in order and no subclass re-implements them. Not "
     "decided: broadcast == element-wise evaluation, the numerical group law of the probability transform.")
+EXPLANATION += (' R-C08-9: the curve data the accessor computes with has a float element type (integer input is converted). R-C08-10: apart from the documented temporaries of the broadcaster no write reaches the curve data of the accessor.')
 ASSUMPTIONS = [
     "k_1, SD, ND, TN, TS positive; np.power/** follow real powers on positive bases",
     "pandas .copy() returns an independent object",
